@@ -91,7 +91,10 @@ theorem rtc_pack_masks (c : Nat) : rtcPack c = rtcPack (c % 2 ^ 48) := by
 
 /-! ### arithmetic -/
 
-/-- `a + b`: exact, and the nanoseconds end up in [0, 10⁹) — for ALL integer operands -/
+/-- `a + b`: exact, and the nanoseconds end up in [0, 10⁹) — for ALL integer operands OF THE MODEL.
+    (rev2 review: the code computes `int(addns % 1e9)` and `int(addns // 1e9)` in binary64; the model's integer `%` and
+    `/` are those operations exactly as long as |addns| < 2⁵³, which covers every pair of 32-bit — indeed 52-bit —
+    nanosecond fields.  Beyond that the statement is about the model only.) -/
 theorem ptp_add_exact (a b : IPTP) :
     total (ptpAdd a b) = total a + total b ∧ Norm (ptpAdd a b) := by
   simp only [total, ptpAdd, Norm]
